@@ -938,7 +938,7 @@ pub fn c20(tier: Tier) -> i32 {
     }
     let group_cases = cases.len();
     // 2. the other options: <= k deviations from each uniform background
-    let k = if tier == Tier::Quick { 2 } else { 3 };
+    let k = if tier == Tier::Quick { 2 } else { 4 };
     let n = OPTS.len();
     let valid_srcs = |i: usize| -> Vec<Src> {
         match OPTS[i].kind {
